@@ -202,6 +202,7 @@ def explore(tier, seed, model_ok=True, focus=False):
         terms.append(ssp.coq_history(cfg, tr))
         if len(ex.samples) < 4 and (cfg["mode"] == "live" or len(ex.samples) % 2):
             ex.samples.append(dict(seed=sd, cfg=cfg, ops=[[(op if op[0] != "Inject" else ["Inject", op[1][:3], op[2], op[3]]),
+                                                           "round %d" % o.get("round", o.get("now", 0)),
                                                            "ok" if o["ok"] else o["msg"], o.get("res", o.get("last"))]
                                                           for op, o in tr[:14]]))
     if model_ok:
